@@ -204,7 +204,23 @@ func (c *Channel) JoinPresence(ctx context.Context, p stanza.Presence, opt ...Op
 	if p.ID == "" {
 		p.ID = attr.RandomID()
 	}
+
+	conf := config{}
+	for _, o := range opt {
+		o(&conf)
+	}
+	c.pass = conf.password
+	// The occupant address that is requested: the channel's own, or the one
+	// with the new nickname. The channel's address changes when the room
+	// confirms it.
 	p.To = c.addr
+	if conf.newNick != "" {
+		newAddr, err := c.addr.WithResource(conf.newNick)
+		if err != nil {
+			return err
+		}
+		p.To = newAddr
+	}
 
 	// Make sure that presences from the room are routed to this channel, also
 	// when it is joined again after it has been left.
@@ -214,19 +230,6 @@ func (c *Channel) JoinPresence(ctx context.Context, p stanza.Presence, opt ...Op
 	}
 	c.client.managed[p.To.String()] = c
 	c.client.managedM.Unlock()
-
-	conf := config{}
-	for _, o := range opt {
-		o(&conf)
-	}
-	c.pass = conf.password
-	if conf.newNick != "" {
-		newAddr, err := c.addr.WithResource(conf.newNick)
-		if err != nil {
-			return err
-		}
-		c.addr = newAddr
-	}
 
 	ctx, cancel := context.WithCancel(ctx)
 	defer cancel()
